@@ -346,3 +346,65 @@ CHECKS["C12"] = {
     "explanation": "workloads of 1-2 full chunks plus a short or empty last chunk; every interleaving of the caller with the background writers within the pre-emption bound; data symbolic; oracle = complete sorted multiset after Finalise; deadlock and crash detection by the engine. Schedule-dependent counterexamples are not replayed natively",
     "outside": "data races on plain memory (no happens-before detector), more chunks / pre-emptions than stated",
 }
+
+
+def c03_jobs(tier):
+    jobs = []
+    ns = [1, 2, 3] if tier == "quick" else [1, 2, 3, 4, 5]
+    for n in ns:
+        jobs.append({"pkgdir": "io/seqio/fasta", "func": "VerifC03_Fasta", "params": {"n": n, "nonascii": 0}, "timeout_s": 600 if tier == "quick" else 3000})
+    return jobs
+
+
+CHECKS["C03"] = {
+    "jobs": c03_jobs,
+    "functions": ["fasta.(*Reader).Read/header", "bufio.(*Reader).ReadLine/ReadSlice/fill, bytes.TrimSpace/HasPrefix/Fields/Join/IndexAny (executed)"],
+    "explanation": "arbitrary buffer: every input byte symbolic; Read called until an error; no panic, record-or-error, error within lines+2 calls",
+    "outside": "inputs longer than stated",
+}
+
+
+def _fa(func, recs, name=1, desc=0, maxwidth=3, small=0, alphabet=0, **kw):
+    p = {"records": len(recs), "name": name, "desc": desc, "maxwidth": maxwidth, "small": small, "alphabet": alphabet}
+    for i, n in enumerate(recs):
+        p["len%d" % i] = n
+    j = {"pkgdir": "io/seqio/fasta", "func": func, "params": p}
+    j.update(kw)
+    return j
+
+
+def c01_jobs(tier):
+    jobs = []
+    if tier == "quick":
+        shapes = [([0], 1, 0, 2), ([3], 2, 2, 4), ([2, 3], 1, 1, 3), ([], 1, 0, 1)]
+    else:
+        shapes = [([0], 1, 0, 2), ([3], 2, 2, 4), ([2, 3], 1, 1, 3), ([], 1, 0, 1), ([5], 1, 0, 6), ([4, 0, 2], 1, 2, 3), ([8], 2, 3, 9)]
+    for k, (recs, nm, ds, mw) in enumerate(shapes):
+        jobs.append(_fa("VerifC01_Fasta", recs, nm, ds, mw, alphabet=k % 3))
+    jobs.append(_fa("VerifC01_Fasta", [20], 1, 0, 21, small=1))
+    return jobs
+
+
+CHECKS["C01"] = {
+    "jobs": c01_jobs,
+    "functions": ["fasta.(*Writer).Write", "fasta.(*Reader).Read/header", "linear.Seq", "bufio, bytes (executed)"],
+    "explanation": "symbolic names, descriptions, letters; line width case-split; records written by the real writer and read back by the real reader",
+    "outside": "",
+}
+
+
+def c04_jobs(tier):
+    jobs = []
+    shapes = [([3], 1, 1, 3), ([2, 2], 1, 0, 2)] if tier == "quick" else [([3], 1, 1, 3), ([2, 2], 1, 0, 2), ([5], 2, 2, 4), ([3, 0, 2], 1, 1, 3)]
+    for (recs, nm, ds, mw) in shapes:
+        jobs.append(_fa("VerifC04_Fasta", recs, nm, ds, mw))
+    jobs.append(_fa("VerifC04_Fasta", [20], 1, 0, 3))
+    return jobs
+
+
+CHECKS["C04"] = {
+    "jobs": c04_jobs,
+    "functions": ["fasta.(*Reader).Read", "fasta.(*Writer).Write (generator)"],
+    "explanation": "relational check: canonical text from the real writer vs a layout-transformed text (re-wrap, blank line, trailing blanks, CRLF, missing final newline, one long physical line through a 16-byte bufio buffer); both parsed by the real reader; record lists must be equal",
+    "outside": "",
+}
